@@ -2,14 +2,16 @@ PROPS["C20"] = dict(
     pkg="p_zip", hooks=[], level="exploration", design="DESIGN.md §4 C20",
     technique="round-trip PBT (rapid) over generated directory trees compared file by file; sandbox-snapshot invariant over "
               "generated and systematically enumerated hostile archives written with archive/zip directly",
-    rule="two case kinds. tree case = (directories nested to depth <= 4, 0..25 regular files with names made of ASCII letters/digits, "
-         "spaces, inner and leading dots, unicode, up to 200 bytes, never '.', '..', NUL or '/'; contents empty / random bytes / zero runs / "
+    rule="two case kinds. tree case = (directories nested to depth <= 4, 0..25 regular files; file and directory names are byte strings: ASCII letters/digits, "
+         "spaces, inner and leading dots, unicode, up to 200 bytes, and arbitrary bytes 0x01..0xFF (invalid UTF-8: Latin-1, lone continuation bytes, "
+         "truncated and overlong sequences, 0xFE/0xFF; control characters; backslash; a literal U+FFFD; siblings that differ only in such bytes), "
+         "never '.', '..', NUL or '/'; contents empty / random bytes / zero runs / "
          "sizes around 4K, 32K, 64K / at most two files of about 1 MB; filter in {nil, path suffix, keep-only directory component, "
          "exclude directory component, reject all}; recursive flag; source dir spelled as a clean absolute path with or without ONE "
          "trailing slash; destination absent, empty, or pre-populated with regular files at the relative paths of source files - longer, "
          "shorter, same length, empty, arbitrary - and with unrelated files; optionally a second round: source files shrunk/grown/emptied/"
          "rewritten/deleted, then ZipFolder+UnzipToFolder again into the same destination). Excluded as outside the documented domain: relative or unclean source paths, "
-         "double slashes, symlinks, devices, unreadable files, backslashes in names, the archive placed inside the source dir. "
+         "double slashes, symlinks, devices, unreadable files, the archive placed inside the source dir. "
          "archive case = list of zip entries (name, kind file/dir/symlink mode bits, payload, stored or deflated) written with archive/zip, "
          "optionally with 1..3 corrupted bytes; names from '..', '.', empty and plain segments joined by '/' or '\\\\', up to 8 leading '../', "
          "absolute prefixes ('/', '//', the sandbox root, the destination itself), trailing slash, duplicates and file/dir clashes; the "
@@ -31,7 +33,8 @@ PROPS["C20"] = dict(
                  "before every case and rebuilt after any violation (a replay builds its own sandbox); tree cases get a fresh directory each",
                  "violation messages are functions of the case alone (scratch directory names replaced by {ROOT}/{BASE}, no mtime values): "
                  "rapid only shrinks failures whose message is reproducible",
-                 "Linux file system semantics (backslash is an ordinary name byte, names are case sensitive)"],
+                 "Linux file system semantics (names are raw bytes, backslash is an ordinary name byte, names are case sensitive); names are kept byte-exact "
+                 "in the case (JSON: plain string if valid UTF-8, {hex: ...} otherwise)"],
     units=[
         dict(name="tree", run="^TestC20TreeRapid$", checks=(400, 1500), shards=(4, 16), timeout=(200, 1200), shrinktime=("15s", "40s")),
         dict(name="archive", run="^TestC20ArchiveRapid$", checks=(1500, 8000), shards=(4, 16), timeout=(200, 1200), shrinktime=("15s", "40s")),
